@@ -55,7 +55,7 @@ def _multiset(*pairs):
     return sorted(out)
 
 
-def _recording_class():
+def _recording_class(yv_ref=None):
     lib.setup()
     from opfython.models.supervised import SupervisedOPF
 
@@ -72,7 +72,7 @@ def _recording_class():
 
         def predict(self, X_val, I_val=None):
             out = super().predict(X_val, I_val)
-            log["predicts"].append({"preds": [int(v) for v in out], "n": len(out)})
+            log["predicts"].append({"preds": [int(v) for v in out], "n": len(out), "yv": None if yv_ref is None else [int(v) for v in yv_ref]})
             return out
 
     return Recording, log
@@ -80,30 +80,17 @@ def _recording_class():
 
 def check_learn(case):
     np = models.np()
-    import opfython.models.supervised as supmod
-
     nt, nv = case["nt"], case["nv"]
     X = np.array(case["X"], dtype=float)
     Xt, Xv = X[:nt].copy(), X[nt:].copy()
     Yt, Yv = np.array(case["Y"], dtype=int), np.array(case["Yv"], dtype=int)
     before = _multiset((Xt, Yt), (Xv, Yv))
-    Recording, log = _recording_class()
-    # the validation labels seen by each accuracy computation
-    yv_log = []
-    g = supmod.g
-    orig = g.opf_accuracy
-
-    def wrapped(labels, preds):
-        yv_log.append(([int(v) for v in labels], [int(v) for v in preds]))
-        return orig(labels, preds)
-
+    # the recording sub-class snapshots, at every predict, the predictions and the caller's validation labels as they are then
+    Recording, log = _recording_class(Yv)
     m = libcall(Recording, distance=case["metric"])
     np.random.seed(case["seed"])
-    g.opf_accuracy = wrapped
-    try:
-        libcall(m.learn, Xt, Yt, Xv, Yv, case["n_iter"])
-    finally:
-        g.opf_accuracy = orig
+    libcall(m.learn, Xt, Yt, Xv, Yv, case["n_iter"])
+    yv_log = [(pr["yv"], pr["preds"]) for pr in log["predicts"]]
     require(Xt.shape == (nt, X.shape[1]) and Xv.shape == (nv, X.shape[1]) and Yt.shape == (nt,) and Yv.shape == (nv,), "learn:sizes_unchanged", "shapes %r %r %r %r" % (Xt.shape, Yt.shape, Xv.shape, Yv.shape))
     after = _multiset((Xt, Yt), (Xv, Yv))
     require(after == before, "learn:samples_conserved", lambda: "multiset of (features, label) over train+validation changed: lost %r, gained %r" % (
